@@ -25,6 +25,7 @@ void myth_verif_ev(const char *name, int n, ...);
 void myth_verif_evz(const char *name, int n, ...);
 void myth_verif_evlock(const char *name, const void *lock);
 long myth_verif_id(int ns, const void *p);
+long myth_verif_id_alias(int ns, const void *key, const void *alias);
 long myth_verif_addr(const void *p);
 int  myth_verif_choose(int lo, int hi);
 int  myth_verif_clock(struct timespec *ts);
@@ -48,6 +49,8 @@ void myth_verif_fspin(const char *label);
 #define MYTH_VERIF_NS_FELOCK 10
 #define VD(p) myth_verif_id(MYTH_VERIF_NS_DESC, (const void*)(p))
 #define VS(p) myth_verif_id(MYTH_VERIF_NS_STACK, (const void*)(p))
+/* a stack is identified by the base of its memory block; top is the pointer the library keeps */
+#define VSA(base, top) myth_verif_id_alias(MYTH_VERIF_NS_STACK, (const void*)(base), (const void*)(top))
 #define VL(p) myth_verif_id(MYTH_VERIF_NS_LOCK, (const void*)(p))
 #define VSQ(p) myth_verif_id(MYTH_VERIF_NS_SLEEPQ, (const void*)(p))
 #define VO(ns, p) myth_verif_id((ns), (const void*)(p))
